@@ -406,7 +406,11 @@ class TrajectoryCalc:
             velocity_adjusted = velocity_vector - wind_vector
             velocity = velocity_adjusted.magnitude()  # Velocity relative to air
             # Time step is normalized by velocity so that we take smaller steps when moving faster
-            delta_time = self.calc_step / max(1.0, velocity)
+            # The lower bound on the speed keeps delta_time finite; it is chosen so that gravity alone cannot carry the
+            # projectile further than calc_step through the air in one step (with a fixed 1 fps floor a projectile
+            # momentarily at rest in the air - apex of a vertical shot, drifting with the wind - advanced by up to
+            # |g| * calc_step^2, several times the configured maximum step)
+            delta_time = self.calc_step / max(1.0, velocity, math.sqrt(self.calc_step * math.fabs(self.gravity_vector.y)))
             # Drag is a function of air density and velocity relative to the air
             drag = density_factor * velocity * self.drag_by_mach(velocity / mach)
             # Bullet velocity changes due to both drag and gravity
